@@ -60,7 +60,21 @@ def gen_one(rng, tier):
     return case
 
 
+def gen_scale(rng):
+    """Many entities, types and operations (size-dependent code paths)."""
+    case = {'classes': wl.gen_classes(rng, 14, ('',), depth=4),
+            'ids': list(range(1, 40)) + [f'id{i}' for i in range(40)]
+            + [['t', i] for i in range(20)],
+            'idgen': rng.choice([None, 'count3']), 'sweep_every': 25,
+            'ops': []}
+    weights = dict(WEIGHTS, create=40, add=30, clear=0.3, process=6)
+    wl.gen_ops(rng, case, 700, weights)
+    return case
+
+
 def gen_cases(tier, seed):
+    for i in range(3 if tier == 'quick' else 48):
+        yield gen_scale(random.Random(f'C01/scale/{seed}/{tier}/{i}'))
     n = 1500 if tier == 'quick' else 16 * 6000
     for i in range(n):
         yield gen_one(random.Random(f'C01/{seed}/{tier}/{i}'), tier)
@@ -128,7 +142,12 @@ class C01Driver(wl.Driver):
                         'object other than the matching attached component '
                         '(exact type first)', expected=legal, observed=uid)
                 return
-        self.sweep(at)
+        every = self.case.get('sweep_every', 1)
+        if every == 1 or at % every == 0 or at == len(self.case['ops']) - 1:
+            self.sweep(at)
+            if every > 1:
+                self.res.tags['scale_entities'].add(
+                    min(len(self.model.rows) // 10 * 10, 200))
 
     def sweep(self, at):
         res, m, w = self.res, self.model, self.world
